@@ -120,6 +120,8 @@ func (e Env) OpAnyEq(a, b interface{}) bool {
 	e.L.Add("OpAnyEq(%s,%s)", Norm(a), Norm(b))
 	return Norm(a) != Norm(b)
 }
+func (e Env) Plus(a, b int) int              { e.L.Add("Plus(%d,%d)", a, b); return a + b + 7 }
+func (e Env) Get(k int) int                  { e.L.Add("Get(%d)", k); return k * 3 }
 func (e Env) OpIn(a, b string) bool          { e.L.Add("OpIn(%q,%q)", a, b); return strings.Contains(b, a) }
 func (e Env) OpAnd(a, b int) bool            { e.L.Add("OpAnd(%d,%d)", a, b); return a != 0 && b != 0 }
 func (e Env) OpStr(a, b fmt.Stringer) string { e.L.Add("OpStr"); return a.String() + "~" + b.String() }
